@@ -1,24 +1,54 @@
 """C06-C08 - common/db: KV backends vs ordered-map model, paged listing, layered LocalDB. Family KVDB."""
+import copy
+
 FAMILY = 'KVDB'
 DRIVER = 'kvdb'
 PROPS = {
     'C06': dict(text='wip', note='wip'),
+    'C07': dict(text='wip', note='wip'),
+    'C08': dict(text='wip', note='wip'),
 }
+T = 3600  # generous: the machine is shared
 
 
 def run_c06(ctx):
     q = ctx.tier == 'quick'
-    ctx.tlc_mc('KVDB_MC', 'KVDB_MCq.cfg' if q else 'KVDB_MC.cfg', workers=4, timeout=3600)
+    ctx.tlc_mc('KVDB_MC', 'KVDB_MCq.cfg' if q else 'KVDB_MC.cfg', workers=4, timeout=3 * T)
     b = vlib.build(DRIVER)
-    bs = ctx.tlc_sim('KVDB_Gen', 'KVDB_Gen.cfg', num=300 if q else 3000, depth=30, timeout=1800)
+    bs = ctx.tlc_sim('KVDB_Gen', 'KVDB_Gen.cfg', num=300 if q else 3000, depth=30, timeout=3 * T)
     for db in ('mem', 'leveldb', 'badger'):
-        ctx.replay(b, bs, opts=dict(spec='kvdb', db=db), par=4, count=(db == 'mem'), timeout=3000)
+        ctx.replay(b, bs, opts=dict(spec='kvdb', db=db), par=4, count=(db == 'mem'), timeout=T)
+
+
+def run_c07(ctx):
+    q = ctx.tier == 'quick'
+    ctx.tlc_mc('Listing_MC', 'Listing_MCq.cfg', workers=4, timeout=3 * T)
+    b = vlib.build(DRIVER)
+    n = 150 if q else 1500
+    g1 = ctx.tlc_sim('Listing_Gen', 'Listing_Gen1.cfg', num=n, depth=40, timeout=3 * T)
+    g2 = ctx.tlc_sim('Listing_Gen', 'Listing_Gen2.cfg', num=n, depth=40, timeout=3 * T)
+    g3 = ctx.tlc_sim('Listing_Gen', 'Listing_Gen3.cfg', num=n, depth=40, timeout=3 * T)
+    for db in ('mem', 'leveldb', 'badger'):
+        ctx.replay(b, g1, opts=dict(spec='listing', bind='helper', db=db), par=4, count=(db == 'mem'), timeout=T)
+    ctx.replay(b, g1, opts=dict(spec='listing', bind='kvdblist', db='mem'), par=4, count=False, timeout=T)
+    for g in (g2, g3):
+        ctx.replay(b, g, opts=dict(spec='listing', bind='merged', db='mem'), par=4, timeout=T)
+        ctx.replay(b, g, opts=dict(spec='listing', bind='merged', db='mix'), par=4, count=False, timeout=T)
+        ctx.replay(b, g, opts=dict(spec='listing', bind='localdb', db='mem'), par=4, count=False, timeout=T)
+
+
+def run_c08(ctx):
+    q = ctx.tier == 'quick'
+    ctx.tlc_mc('LocalDB_MC', 'LocalDB_MCq.cfg' if q else 'LocalDB_MC.cfg', workers=4, timeout=3 * T)
+    b = vlib.build(DRIVER)
+    bs = ctx.tlc_sim('LocalDB_Gen', 'LocalDB_Gen.cfg', num=200 if q else 2000, depth=30, timeout=3 * T)
+    for db in ('mem', 'leveldb'):
+        ctx.replay(b, bs, opts=dict(spec='localdb', db=db, proj=1), par=4, count=(db == 'mem'), timeout=T)
+    ctx.replay(b, bs, opts=dict(spec='localdb', db='mem', proj=0), par=4, count=False, timeout=T)
 
 
 def run(ctx):
-    if ctx.prop == 'C06':
-        return run_c06(ctx)
-    raise vlib.Broken('no check for ' + ctx.prop)
+    return dict(C06=run_c06, C07=run_c07, C08=run_c08)[ctx.prop](ctx)
 
 
 import vlib  # noqa: E402
